@@ -308,6 +308,8 @@ class CallMixin:
                 out[n] = Sym(v.pulse, ("ref", "Pulse"))
             elif ty == "real" and isinstance(v, Sym) and v.ty == "int":
                 out[n] = Sym(z3.ToReal(v.t), "real")
+            elif isinstance(v, OptV) and not (isinstance(ty, tuple) and ty[0] == "opt") and ty != "opaque":
+                out[n] = self.unopt(v, st, node)
             elif isinstance(ty, tuple) and ty[0] == "opt" and not isinstance(v, OptV) and n in out:
                 if v is None:
                     out[n] = OptV(z3.BoolVal(True), self.fresh_value(ty[1], n))
